@@ -32,6 +32,10 @@ def sf_cases(draw):
     kind = draw(st.sampled_from(["noise", "ramp", "noise", "quad", "column_offsets", "counts"]))
     step = draw(st.one_of(st.none(), st.integers(1, 4)))
     nb = draw(st.one_of(st.none(), st.integers(1, 30)))
+    if draw(st.integers(0, 24)) == 0:
+        # sizes beyond the round numbers at which an implementation might start to work in blocks
+        a, b = draw(st.sampled_from([(130, 1030), (257, 4097), (600, 3), (1025, 1), (66, 16385)]))
+        nb = draw(st.integers(1, 5))
     return {"a": a, "b": b, "kind": kind, "step": step, "nb": nb, "slope": draw(gen.dyadic(-4, 4, 8)), "slope2": draw(gen.dyadic(-2, 2, 8)),
             "seed": draw(st.integers(0, 2**32 - 1)), "k": draw(gen.dyadic(-4, 4, 4))}
 
@@ -61,7 +65,7 @@ def sf_body(ctx, case):
         phase = gen.np_rng(case["seed"]).normal(size=(a, b))
     exact = phase.astype(np.float64)                      # the numbers, whatever container they came in
     st_ = 1 if step is None else step
-    ctx.case(case, nontrivial=(a != b) or st_ >= 2, classes=[case["kind"], "square" if a == b else "non_square", "step%d" % st_, "nb_default" if nb is None else "nb_given"])
+    ctx.case(case, nontrivial=(a != b) or st_ >= 2, classes=[case["kind"], "square" if a == b else "non_square", "step%d" % st_, "nb_default" if nb is None else "nb_given"] + (["large"] if a * b > 3000 else []))
     p0 = phase.copy()
     kw = {}
     if nb is not None:
@@ -96,6 +100,13 @@ def sf_body(ctx, case):
         ctx.close(sf[j], want, 1e-12, "sf[j] == mean squared difference at lag j*step", scale=max(want, 1e-300), name="sf vs definition")
         if case["kind"] == "ramp":
             ctx.require(sf[j] == (case["slope"] * lag) ** 2, "ramp of slope %r: sf[%d] = %r, expected a^2 (j step)^2 = %r" % (case["slope"], j, float(sf[j]), (case["slope"] * lag) ** 2))
+    def again():
+        with np.errstate(all="ignore"):
+            import warnings
+            with warnings.catch_warnings():
+                warnings.simplefilter("ignore")
+                return sc.calculate_structure_function(phase, **kw)
+    ctx.fresh_result(again, sf, "calculate_structure_function")
     if case["kind"] == "counts":
         return
     # quadratic in amplitude
@@ -113,6 +124,9 @@ def sf_body(ctx, case):
 def tps_cases(draw):
     nf = draw(st.integers(2, 65))
     ns = draw(st.integers(1, 8))
+    if draw(st.integers(0, 19)) == 0:
+        # an ELT-sized sensor: more sub-apertures than any round block size, few frames
+        nf, ns = draw(st.integers(2, 9)), draw(st.sampled_from([1025, 4095, 4097, 5000, 8193, 16385, 20000]))
     lead = tuple(draw(st.sampled_from([(), (), (2,), (1,), (2, 3)])))
     kind = draw(st.sampled_from(["noise", "noise", "sine", "dyadic", "int64", "int16", "float32"]))
     return {"nf": nf, "ns": ns, "lead": lead, "kind": kind, "seed": draw(st.integers(0, 2**32 - 1)), "q": draw(st.integers(0, 64)),
@@ -137,7 +151,9 @@ def tps_body(ctx, case):
         data = rng.normal(size=shape).astype(np.float32)
     else:
         data = rng.normal(size=shape) * case["amp"]
-    ctx.case(case, nontrivial=nf % 2 == 1 or len(lead) > 0, classes=[case["kind"], "odd_frames" if nf % 2 else "even_frames", "lead%d" % len(lead)])
+    if ns > 1000 and data.dtype == np.float64:
+        data = data * np.linspace(0.05, 3.0, ns)                    # signal level varies across the pupil
+    ctx.case(case, nontrivial=nf % 2 == 1 or len(lead) > 0, classes=[case["kind"], "odd_frames" if nf % 2 else "even_frames", "lead%d" % len(lead)] + (["many_subaps"] if ns > 1000 else []))
     d0 = data.copy()
     mean_tps, err = tp.calc_slope_temporalps(data)
     ctx.equal(data, d0, "calc_slope_temporalps modified its input")
@@ -155,6 +171,7 @@ def tps_body(ctx, case):
         return
     ctx.close(mean_tps, want, 1e-10, "temporal power spectrum == mean over sub-apertures of |DFT along frames|^2", scale=sc, name="tps vs definition")
     ctx.close(err, want_err, 1e-9, "temporal power spectrum error == standard error over sub-apertures", scale=sc, name="tps error vs definition")
+    ctx.fresh_result(lambda: tp.calc_slope_temporalps(data), (mean_tps, err), "calc_slope_temporalps")
     if case["kind"] == "counts":
         return
     # quadratic in amplitude
@@ -171,6 +188,7 @@ def tps_body(ctx, case):
     # frequency axis
     ax = tp.get_tps_time_axis(case["rate"], nf)
     ctx.close(ax, np.arange(nb) * case["rate"] / nf, 1e-12, "frequency axis == k frame_rate / n_frames", scale=case["rate"])
+    ctx.fresh_result(lambda: tp.get_tps_time_axis(case["rate"], nf), ax, "get_tps_time_axis")
 
 
 # ------------------------------------------------------------------ estimator on generated screens: exact ensemble expectation
